@@ -77,3 +77,37 @@ def fmt(p: List[Factor]) -> str:
             s += "^T"
         out.append(s)
     return " · ".join(out)
+
+
+def product_nodes(e: ast.AST):
+    """Like `product` but each factor is (node, conj, transposed)."""
+    return _prodn(e, False, False)
+
+
+def _prodn(e, conj, tr):
+    if isinstance(e, ast.BinOp) and isinstance(e.op, ast.MatMult):
+        l, r = _prodn(e.left, conj, tr), _prodn(e.right, conj, tr)
+        return (r + l) if tr else (l + r)
+    if isinstance(e, ast.Attribute) and e.attr == "T":
+        return _prodn(e.value, conj, not tr)
+    if isinstance(e, ast.Call):
+        dn = dotted(e.func)
+        fn = e.func
+        if isinstance(fn, ast.Attribute) and not e.args and not e.keywords:
+            if fn.attr in ("conj", "conjugate"):
+                return _prodn(fn.value, not conj, tr)
+            if fn.attr == "transpose":
+                return _prodn(fn.value, conj, not tr)
+        if isinstance(fn, ast.Attribute) and fn.attr == "dot" and len(e.args) == 1 and not (dn or "").startswith(("np.", "numpy.")):
+            l, r = _prodn(fn.value, conj, tr), _prodn(e.args[0], conj, tr)
+            return (r + l) if tr else (l + r)
+        if dn and dn.startswith(("np.", "numpy.")):
+            name = _last(dn)
+            if name in ("conjugate", "conj") and len(e.args) == 1:
+                return _prodn(e.args[0], not conj, tr)
+            if name == "transpose" and len(e.args) == 1:
+                return _prodn(e.args[0], conj, not tr)
+            if name in ("dot", "matmul") and len(e.args) == 2:
+                l, r = _prodn(e.args[0], conj, tr), _prodn(e.args[1], conj, tr)
+                return (r + l) if tr else (l + r)
+    return [(e, conj, tr)]
